@@ -460,7 +460,12 @@ func (p *Parser) parseSelect(stmt *SelectStatement) error {
 
 		// 处理别名
 		if currentToken.Type == TokenAS {
-			field.Alias = p.lexer.NextToken().Value
+			aliasTok := p.lexer.NextToken()
+			field.Alias = aliasTok.Value
+			if aliasTok.Type == TokenQuotedIdent && len(field.Alias) >= 2 {
+				// `name` names the output column name, the back quotes are not part of it
+				field.Alias = strings.Trim(field.Alias, "`")
+			}
 			currentToken = p.lexer.NextToken()
 		}
 
